@@ -178,7 +178,16 @@ impl<'a> Gen<'a> {
         let e = expected_seeds(shape, vals);
         let canon = ref_find(&e, p);
         for _ in 0..6 {
-            let (name, key): (&str, Option<[u8; 32]>) = match self.rng.below(9) {
+            let (name, key): (&str, Option<[u8; 32]>) = match self.rng.below(10) {
+                9 => {
+                    // the right address with a single bit flipped (sloppy comparisons)
+                    let k = canon.map(|(mut k, _)| {
+                        let i = self.rng.below(32) as usize;
+                        k[i] ^= 1 << self.rng.below(8);
+                        k
+                    });
+                    ("bitflip", k)
+                }
                 0 if e.len() >= 2 => {
                     let i = self.rng.below(e.len() as u64) as usize;
                     let j = (i + 1 + self.rng.below(e.len() as u64 - 1) as usize) % e.len();
